@@ -54,7 +54,8 @@ def gen(rng, tier, k):
         restack = rng.random() < 0.4
         if r < 0.4:
             c = rng.choice(cols)
-            ops.append(dict(kind="col_arith", col=c, opr=rng.choice("+-*/"), v=rng.choice([1, 2, 3, 0.5, 1.5, 100, -7, 1.000005, 1e-3, 0.25]), restack=restack))
+            ops.append(dict(kind="col_arith", col=c, opr=rng.choice("+-*/"), v=rng.choice([1, 2, 3, 0.5, 1.5, 100, -7, 1.000005, 1e-3, 0.25]), restack=restack,
+                            series_order=rng.choice([None, None, "sorted", "reversed"])))
         elif r < 0.5:
             ops.append(dict(kind="col_scalar", col=rng.choice(cols), v=rng.choice([0, 1, 5.5, 120]), restack=restack))
         elif r < 0.6:
@@ -131,7 +132,12 @@ def do_op(stack, op):
     if op["kind"] == "col_arith":
         setattr_ = lambda v: stack.__setitem__(op["col"], v)
         cur = stack[op["col"]]
-        setattr_(OPS[op["opr"]](cur, op["v"]))
+        val = OPS[op["opr"]](cur, op["v"])
+        if op.get("series_order") == "sorted":
+            val = val.sort_values()   # a Series is assigned by its labels (the stack's positions), whatever order it is in
+        elif op.get("series_order") == "reversed":
+            val = val.iloc[::-1]
+        setattr_(val)
     elif op["kind"] == "col_scalar":
         stack[op["col"]] = op["v"]
     elif op["kind"] == "col_expr":
